@@ -363,6 +363,8 @@ fn c17_configs(tier: Tier) -> Vec<SockCfg> {
         v.push(mk("v4-mixed-d4-pq", false, 4, true, true, vec![80, 81], true));
         v.push(mk("v6-tcp-d5", true, 5, false, true, vec![80], false));
         v.push(mk("v4-udp-d6", false, 6, true, false, vec![80], false));
+        v.push(mk("v4-tcp-d6", false, 6, false, true, vec![80], false));
+        v.push(mk("v6-mixed-d4-pq", true, 4, true, true, vec![80, 81], true));
     }
     v
 }
